@@ -1163,6 +1163,24 @@ namespace awkward {
       }
     }
 
+    if (make_shifts  &&  branchdepth.second > 1) {
+      // an option over lists: the missing lists of the same group, on top of the shifts handed down
+      int64_t nullsum = 0;
+      int64_t k = 0;
+      for (int64_t i = 0;  i < mask_.length();  i++) {
+        if (i > 0  &&  parents.getitem_at_nowrap(i) != parents.getitem_at_nowrap(i - 1)) {
+          nullsum = 0;
+        }
+        if (((mask_.getitem_at_nowrap(i) != 0) == valid_when_)) {
+          nextshifts.setitem_at_nowrap(k, (shifts.length() == 0 ? 0 : shifts.getitem_at_nowrap(i)) + nullsum);
+          k++;
+        }
+        else {
+          nullsum++;
+        }
+      }
+    }
+
     ContentPtr next = content_.get()->carry(nextcarry, false);
     if (RegularArray* raw = dynamic_cast<RegularArray*>(next.get())) {
       next = raw->toListOffsetArray64(true);
